@@ -14,6 +14,12 @@ Line-protocol front end of the C09 model (requests after the leading `C09` field
         events = s<e> (start) i<e> (eval-loop trip) f<e> (finish) c<e> (cancel e's own context); halted = - or the trip
   regrows                                 → every reviewed registry row: method|kind|detail|type|ok  joined by `;`
   machsrc fn                              → fresh | not-fresh   (does fn of package vm allocate its machine per request)
+  ctxs  policy nEvals events              → ok <e:loads:halted|…> <e:loads:halted|…> (Model §5: full schedule, then what concerns each evaluation only;
+        policy = perRun|registry)
+        events = s<e>:<c> (start e under context c) i<e> (eval-loop trip) f<e> (finish) c<c> (context c ends)
+  cfg   policy nEvals events              → ok <e:m.a=o,o;m.a=o|…> <the same, each evaluation alone>   (Model §6; policy as for res)
+        events = b<e> (DefaultGlobals) d<e>:<m>:<a> (WithoutGlobal) o<e>:<m>:<a>:<v> (WithGlobalOverride) u<e>:<m>:<a> (script reads m.a);
+        per evaluation the cells it reads, in order of first read, with what it finds (0 as built, 1 removed, v+2 replaced by v)
 -/
 namespace Risor.C09
 open Risor.Util
@@ -93,6 +99,46 @@ def parseMEv (tok : String) : Option MEv :=
   | 'c' :: ds => (String.ofList ds).toNat?.map MEv.cancel
   | _ => none
 
+def parseWatchPolicy : String → Option WatchPolicy
+  | "perRun" => some .perRun
+  | "registry" => some .registry
+  | _ => none
+
+def parseCEv (tok : String) : Option CEv :=
+  match tok.toList with
+  | 's' :: ds =>
+    match (String.ofList ds).splitOn ":" with
+    | [e, c] =>
+      match e.toNat?, c.toNat? with
+      | some e, some c => some (CEv.start e c)
+      | _, _ => none
+    | _ => none
+  | 'i' :: ds => (String.ofList ds).toNat?.map CEv.instr
+  | 'f' :: ds => (String.ofList ds).toNat?.map CEv.finish
+  | 'c' :: ds => (String.ofList ds).toNat?.map CEv.cancel
+  | _ => none
+
+def parseGEv (tok : String) : Option GEv :=
+  match tok.toList with
+  | 'b' :: ds => (String.ofList ds).toNat?.map GEv.build
+  | k :: ds =>
+    match k, ((String.ofList ds).splitOn ":").mapM (·.toNat?) with
+    | 'd', some [e, m, a] => some (GEv.deny e m a)
+    | 'o', some [e, m, a, v] => some (GEv.override e m a v)
+    | 'u', some [e, m, a] => some (GEv.use e m a)
+    | _, _ => none
+  | _ => none
+
+/-- the cells evaluation `e` reads, in order of first read -/
+def cellsUsed (evs : List GEv) (e : Nat) : List (Nat × Nat) :=
+  (evs.filterMap fun ev => match ev with
+    | .use e' m a => if e' == e then some (m, a) else none
+    | _ => none).eraseDups
+
+def showCells (f : Nat → Nat → List Nat) (cells : List (Nat × Nat)) : String :=
+  if cells.isEmpty then "-" else
+    ";".intercalate (cells.map fun c => toString c.1 ++ "." ++ toString c.2 ++ "=" ++ showNats (f c.1 c.2))
+
 def showOutcome (o : MOutcome) : String :=
   toString o.loads ++ ":" ++ (match o.halted with | some i => toString i | none => "-")
 
@@ -128,6 +174,20 @@ def handle : List String → String
       "ok\t" ++ "|".intercalate ((List.range n).map fun e => toString e ++ ":" ++ showOutcome (machineOutcome p evs e))
         ++ "\t" ++ "|".intercalate ((List.range n).map fun e => toString e ++ ":" ++ showOutcome (machineOutcomeAlone p evs e))
     | _, _, _ => "error\tbad-mach-request"
+  | ["ctxs", pol, ne, evs] =>
+    match parseWatchPolicy pol, ne.toNat?, (splitEvents evs).mapM parseCEv with
+    | some p, some n, some evs =>
+      "ok\t" ++ "|".intercalate ((List.range n).map fun e => toString e ++ ":" ++ showOutcome (ctxOutcome p evs e))
+        ++ "\t" ++ "|".intercalate ((List.range n).map fun e => toString e ++ ":" ++ showOutcome (ctxOutcomeAlone p evs e))
+    | _, _, _ => "error\tbad-ctxs-request"
+  | ["cfg", pol, ne, evs] =>
+    match parsePolicy pol, ne.toNat?, (splitEvents evs).mapM parseGEv with
+    | some p, some n, some evs =>
+      "ok\t" ++ "|".intercalate ((List.range n).map fun e =>
+          toString e ++ ":" ++ showCells (fun m a => attrSeen p evs e m a) (cellsUsed evs e))
+        ++ "\t" ++ "|".intercalate ((List.range n).map fun e =>
+          toString e ++ ":" ++ showCells (fun m a => attrSeenAlone p evs e m a) (cellsUsed evs e))
+    | _, _, _ => "error\tbad-cfg-request"
   | ["regrows"] =>
     ";".intercalate (registryRows.map fun r =>
       r.1 ++ "|" ++ r.2.1 ++ "|" ++ (if r.2.2.1 == "" then "-" else r.2.2.1) ++ "|" ++ r.2.2.2 ++ "|" ++ b2s (regRowOK r))
